@@ -557,7 +557,59 @@ def pred_c11(ops, impl):
     return None
 
 
+def _served_by_recorded_code(ops, impl):
+    """"afterwards all calls are served by the new code": whenever ContractInfo of c was asked (answer: code id …) and the very next
+    transaction's trace begins c's part with an entry point other than `migrate`, that invocation carries the tag of the code
+    recorded under that id (tags: `store X` / `store-c X` / `store-w X` answer `id N`; `dup K` inherits K's tag)."""
+    b = binds_of(ops)
+    tag_of, last_info, pending = {}, {}, None
+    for n, (op, out) in enumerate(zip(ops, impl)):
+        t = op.split()
+        if not t:
+            continue
+        if t[0] in ("store", "store-c", "store-w") and len(t) >= 2 and out.startswith("id "):
+            tag_of[out[3:].strip()] = t[1]
+        elif t[0] == "dup" and len(t) >= 2 and out.startswith("id "):
+            if t[1] in tag_of:
+                tag_of[out[3:].strip()] = tag_of[t[1]]
+        elif t[0] == "app":
+            last_info, pending = {}, None
+        elif t[0] == "q-info" and len(t) >= 2:
+            if out != "err" and "," in out:
+                last_info[b.get(t[1], t[1])] = (n, out.split(",")[0])
+            else:
+                last_info.pop(b.get(t[1], t[1]), None)
+        elif t[0] in TX_OPS:
+            pending = (n, dict(last_info))
+            last_info = {}
+        elif t[0] == "trace" and out.startswith("trace[") and pending is not None:
+            txn, infos = pending
+            pending = None
+            seen = set()
+            for e in out[6:-1].split(" || "):
+                f = e.split(" ")
+                if len(f) < 3 or f[0] in seen:
+                    continue
+                seen.add(f[0])
+                if f[1] == "migrate":
+                    # a top-level `exec who (mig c K script)`: the migrate entry point that runs is the one of code K
+                    mm = re.match(r"^exec \S+ \(mig (\S+) (\d+) ", ops[txn])
+                    if mm and b.get(mm.group(1), mm.group(1)) == f[0] and tag_of.get(mm.group(2)) is not None and f[2] != tag_of[mm.group(2)]:
+                        return ("op %d `%s`: migration to code id %s (code %s) ran the migrate entry point of code %s"
+                                % (txn, ops[txn][:140], mm.group(2), tag_of[mm.group(2)], f[2]))
+                    continue
+                if f[0] in infos:
+                    want = tag_of.get(infos[f[0]][1])
+                    if want is not None and f[2] != want:
+                        return ("op %d `%s`: ContractInfo (op %d) records code id %s (code %s) for %s, but its next invocation (%s) was served by code %s"
+                                % (txn, ops[txn][:140], infos[f[0]][0], infos[f[0]][1], want, f[0], f[1], f[2]))
+    return None
+
+
 def pred_c12(ops, impl):
+    r = _served_by_recorded_code(ops, impl)
+    if r:
+        return r
     b = binds_of(ops)
     info = {}
     for n, (op, out) in enumerate(zip(ops, impl)):
